@@ -951,6 +951,13 @@ impl<'a> Session<'a> {
                         );
                     } else {
                         self.probe("liveness_checked");
+                        if std::env::var("SIM_DEBUG").is_ok() && status != "reachable" {
+                            eprintln!("[dbg] {at}: tower {t} status {status}; db receipts {:?} pending {:?} invalid {:?}; view {:?}",
+                                db.receipts.keys().map(|k| hex::encode(&k.0[..4])).collect::<Vec<_>>(),
+                                db.pending.iter().map(|k| hex::encode(&k.0[..4])).collect::<Vec<_>>(),
+                                db.invalid.iter().map(|k| hex::encode(&k.0[..4])).collect::<Vec<_>>(),
+                                view.map(|v| v.to_string()));
+                        }
                         if status != "reachable" && !status.is_empty() {
                             self.report(
                                 "C13",
@@ -1341,6 +1348,19 @@ pub fn run_client(hist: &ClientHistory) -> ClientResult {
             h = fnv(h, format!("{} {} {}", f.property, f.clause, f.op_index).as_bytes());
         }
         s.stats.digest = h;
+        if std::env::var("SIM_DEBUG").is_ok() {
+            for r in st.log.iter() {
+                eprintln!(
+                    "[net] t={}ms tower {} {} {} -> {:?} (delivered {})",
+                    r.at_ms,
+                    r.tower,
+                    r.endpoint,
+                    r.locator.as_ref().map(|l| hex::encode(&l[..4.min(l.len())])).unwrap_or_default(),
+                    r.reply,
+                    if r.delivered_ms == u64::MAX { "never".to_string() } else { format!("{}ms", r.delivered_ms) }
+                );
+            }
+        }
         s.stats.kills_at_crash_points = cp_kills.load(Ordering::SeqCst);
         s.stats.nontrivial = st.log.iter().any(|r| r.reply != Reply::Accept) || s.stats.kills > 0;
     }
@@ -1617,6 +1637,13 @@ impl<'a> Session<'a> {
             }
             COp::ListTowers => {
                 let v = ld.call("listtowers", json!([]), 30).await;
+                if std::env::var("SIM_DEBUG").is_ok() {
+                    let db = read_client_db(&self.dir.join("watchtowers_db.sql3"));
+                    eprintln!("[dbg] listtowers at {}ms: {:?}; db pending {:?} invalid {:?} receipts {:?}", self.epoch_ms + virtual_ms(), v.as_ref().map(|x| x.to_string()),
+                        db.as_ref().map(|d| d.pending.iter().map(|k| hex::encode(&k.0[..4])).collect::<Vec<_>>()),
+                        db.as_ref().map(|d| d.invalid.iter().map(|k| hex::encode(&k.0[..4])).collect::<Vec<_>>()),
+                        db.as_ref().map(|d| d.receipts.keys().map(|k| hex::encode(&k.0[..4])).collect::<Vec<_>>()));
+                }
                 self.check_store("listtowers", v.as_ref());
             }
             COp::GetTowerInfo { t } => {
